@@ -41,6 +41,8 @@ val tl : 'a1 list -> 'a1 list
 
 val nth : nat -> 'a1 list -> 'a1 -> 'a1
 
+val nth_error : 'a1 list -> nat -> 'a1 option
+
 val last : 'a1 list -> 'a1 -> 'a1
 
 val removelast : 'a1 list -> 'a1 list
@@ -733,6 +735,42 @@ val time_series_row : 'a1 numOps -> 'a1 -> 'a1 -> bool list -> 'a1 train
 
 val hist_counts : 'a1 numOps -> 'a1 list -> 'a1 list -> 'a1 list
 
+val upd : 'a1 list -> nat -> 'a1 -> 'a1 list
+
+type obj = { rx : nat; ry : nat }
+
+type 'f op =
+| OAdd of nat * nat
+| OMul of nat * 'f
+| OCopy of nat
+| ONew of 'f list * 'f list
+
+type 'f store = 'f list option list
+
+type 'f state = { st_store : 'f store; st_objs : obj list; st_errs : err list }
+
+val empty_state : 'a1 state
+
+val alloc : 'a1 store -> 'a1 list -> 'a1 store * nat
+
+val sread : 'a1 store -> nat -> 'a1 list option
+
+val swrite : 'a1 store -> nat -> 'a1 list -> 'a1 store
+
+val read_obj : 'a1 store -> obj -> 'a1 pwc option
+
+val denote : 'a1 state -> nat -> 'a1 pwc option
+
+val fail : 'a1 state -> err -> 'a1 state
+
+val alloc2 : 'a1 store -> 'a1 list -> 'a1 list -> 'a1 store * obj
+
+val new_obj : 'a1 state -> 'a1 list -> 'a1 list -> 'a1 state
+
+val step : 'a1 numOps -> 'a1 op -> 'a1 state -> 'a1 state
+
+val run : 'a1 numOps -> 'a1 op list -> 'a1 state -> 'a1 state
+
 type val0 =
 | VQ of q
 | VN of nat
@@ -784,6 +822,47 @@ val encTrain : ((q list * q) * q) -> val0
 val encMatrix : q list list -> val0
 
 val encPairQ : (q * q) -> val0
+
+val asStrs : val0 -> nat list list option
+
+val asStrsL : val0 -> nat list list list option
+
+val encStr : nat list -> val0
+
+val asPwc : val0 -> (q list * q list) option
+
+val asPwcs : val0 -> (q list * q list) list option
+
+val asOp : val0 -> q op option
+
+val asOps : val0 -> q op list option
+
+val is_empty : 'a1 list -> bool
+
+val starts_with : nat list -> nat list -> bool
+
+val join : nat list -> nat list list -> nat list
+
+val split_go : nat list -> nat -> nat list -> nat list -> nat list list
+
+val split : nat list -> nat list -> nat list list
+
+val save_lines : nat list -> nat list list list -> nat list list
+
+val load_line : nat list -> nat list -> bool -> nat list -> nat list list list
+
+val load_lines :
+  nat list -> nat list -> bool -> nat list list -> nat list list list
+
+val psth_edges : 'a1 numOps -> 'a1 -> 'a1 -> nat -> 'a1 list
+
+val psth_counts : 'a1 numOps -> 'a1 -> 'a1 -> nat -> 'a1 list -> 'a1 list
+
+val cumsum : 'a1 numOps -> 'a1 -> 'a1 list -> 'a1 list
+
+val poisson_cumsums : 'a1 numOps -> 'a1 -> 'a1 list -> 'a1 list
+
+val poisson_spikes : 'a1 numOps -> 'a1 -> 'a1 -> 'a1 list -> 'a1 list
 
 val o : q numOps
 
